@@ -392,7 +392,7 @@ class SparseKDE(BaseEstimator):
         """
         sigma2[idx] = mindist[idx]
         wlocal, flocal[idx] = _local_population(
-            self.cell, self.descriptors, X, sample_weights, sigma2[idx]
+            self.cell, X, X[idx], sample_weights, sigma2[idx]
         )
 
         return sigma2, flocal, wlocal
